@@ -1,5 +1,7 @@
 import RF.Model.Proto
 import RF.Model.Skip
+import RF.Model.MacroBody
+import RF.Gen.SkipSites
 /-!
 Line-protocol operations for the skip / opt-out core (C04).
 
@@ -49,6 +51,15 @@ Encodings (blank-free; identifiers are written raw, they never contain `. : ( ) 
        positions index the *characters* of src (= bytes for ASCII sources, which is what the
        harness should send; `BytePos` in the code)
   skip.inv <state as printed by skip.run> -> 0|1     oracle: line_number == count_newlines(buffer)
+  skip.mbody <pre hex> <armIndent hex> <bodyIndent hex> <hasBlockBody> <formatStrings> <ed2024> <substs> <ranges> <snippet hex>
+                                       -> text hex   the end of `MacroBranch::rewrite` (macros.rs) from the formatted body on:
+       re-indentation of every line outside `ranges` (`RF.MacroBody.reindent`), the macro variables put back
+       (substs: `_` or `<old hex>:<new hex>` joined by `,`, applied in this order), `pre {` … `}` around it
+  skip.reindent <bodyIndent hex> <formatStrings> <ed2024> <ranges> <snippet hex> -> text hex   the re-indentation alone
+  skip.enclose <hardTabs> <tabSpaces> <formatStrings> <ed2024> <code hex> -> text hex   lib.rs `enclose_in_main_block` (whether empty
+       lines are indented is read from the generated `RF.Gen.SkipSites.encloseSkipsEmptyLines`)
+  skip.unwrap <hardTabs> <tabSpaces> <maxWidth> <formatStrings> <ed2024> <ranges> <formatted hex> -> <snippet hex>:<ranges> | none
+       the second half of lib.rs `format_code_block`: header and closing brace cut off, ranges shifted, lines un-indented
 
 Malformed arguments give `err`.
 -/
@@ -252,6 +263,16 @@ def decState (s : String) : Option State :=
 
 def orErr (o : Option String) : Option String := some (o.getD "err")
 
+def decBit (s : String) : Option Bool :=
+  if s == "1" then some true else if s == "0" then some false else none
+
+def decSubsts (s : String) : Option (List (List Char × List Char)) :=
+  if s == "_" then some [] else
+  (s.splitOn ",").mapM fun r =>
+    match r.splitOn ":" with
+    | [a, b] => do pure ((← decChars a), (← decChars b))
+    | _ => none
+
 def handle (op : String) (args : List String) : Option String :=
   match op, args with
   | "skip.is_skip", [m] => orErr ((decMeta m).map fun m => bit (isSkip m))
@@ -306,6 +327,46 @@ def handle (op : String) (args : List String) : Option String :=
     | some none => pure "panic"
     | some (some st) => pure (encState st)
   | "skip.inv", [s] => orErr ((decState s).map fun st => bit (decide st.Inv))
+  | "skip.mbody", [pre, ai, bi, hb, fs, ed, sub, rs, sn] => orErr do
+    let pre ← decChars pre
+    let ai ← decChars ai
+    let bi ← decChars bi
+    let hb ← decBit hb
+    let fs ← decBit fs
+    let ed ← decBit ed
+    let sub ← decSubsts sub
+    let rs ← decRanges rs
+    let sn ← decChars sn
+    pure (encChars (RF.MacroBody.rewriteTail pre ai bi hb ⟨fs, ed⟩ sub rs sn))
+  | "skip.enclose", [ht, ts, fs, ed, code] => orErr do
+    let ht ← decBit ht
+    let ts ← ts.toNat?
+    let fs ← decBit fs
+    let ed ← decBit ed
+    let code ← decChars code
+    pure (encChars (RF.MacroBody.encloseInMainBlock (RF.MacroBody.levelIndent ht ts) ⟨fs, ed⟩
+      RF.Gen.SkipSites.encloseSkipsEmptyLines code))
+  | "skip.unwrap", [ht, ts, mw, fs, ed, rs, f] => orErr do
+    let ht ← decBit ht
+    let ts ← ts.toNat?
+    let mw ← mw.toNat?
+    let fs ← decBit fs
+    let ed ← decBit ed
+    let rs ← decRanges rs
+    let f ← decChars f
+    match RF.MacroBody.unwrapFormatted ht ts mw ⟨fs, ed⟩ f rs with
+    | none => pure "none"
+    | some (sn, rs') =>
+      let r := if rs'.isEmpty then "_" else
+        String.intercalate "," (rs'.map fun p => toString p.1 ++ "-" ++ toString p.2)
+      pure (encChars sn ++ ":" ++ r)
+  | "skip.reindent", [bi, fs, ed, rs, sn] => orErr do
+    let bi ← decChars bi
+    let fs ← decBit fs
+    let ed ← decBit ed
+    let rs ← decRanges rs
+    let sn ← decChars sn
+    pure (encChars (RF.MacroBody.reindent bi rs ⟨fs, ed⟩ sn))
   | _, _ => none
 
 end RF.Driver.Skip
